@@ -38,7 +38,9 @@ def items(tier):
             for sampler in ("identity", "dropper"):
                 if tier == "quick" and method == "bca" and sampler == "dropper" and norm is not None:
                     continue      # nonlinear and slow; thorough tier
-                out.append({"kind": "bootstrap", "method": method, "normalize": norm, "sampler": sampler, "thr": "(1,)" if tier == "quick" else "(2,)", "G": 2})
+                # bca on a deterministic 2-sample sampler is cubic in the symbols: one threshold there; two thresholds for the rest of the thorough tier
+                one = tier == "quick" or (method == "bca" and sampler == "dropper")
+                out.append({"kind": "bootstrap", "method": method, "normalize": norm, "sampler": sampler, "thr": "(1,)" if one else "(2,)", "G": 2})
         out.append({"kind": "bootstrap", "method": method, "normalize": None, "sampler": "identity", "thr": "(2,)", "G": 1})      # one group, several thresholds
     L = 2 if tier == "quick" else 3
     out.append({"kind": "labels", "rows": 1, "maxlen": L, "probe": True})      # join character allowed: confirms the open finding
